@@ -666,6 +666,50 @@ pub fn gen_hot_stream(r: &mut Rng, sid: String) -> Scenario {
     Scenario { sid, conns, steps, fair: true }
 }
 
+/// C10 with three to five streams open at the same time: items are released in any order, the streams end in any
+/// order (the oldest first, a middle one first), calls are pipelined behind some of them.
+pub fn gen_many_streams(r: &mut Rng, sid: String) -> Scenario {
+    let n = r.range(3, 5);
+    let mut conns: Vec<ConnScript> = Vec::new();
+    for _ in 0..n {
+        let mut calls = vec![Kind::Stream(r.range(1, 4) as u32, r.chance(1, 2))];
+        if r.chance(1, 2) {
+            calls.push(Kind::Plain(r.range(0, 6)));
+        }
+        conns.push(ConnScript { calls, faulty: false, fail_write_at: 0, fail_once: false, fail_deliver: 0 });
+    }
+    let mut steps = Vec::new();
+    for c in 0..n {
+        steps.push(Step::Connect(c));
+    }
+    steps.push(Step::Poll);
+    for c in 0..n {
+        steps.push(Step::Send { c, frames: conns[c].calls.len(), extra: 0 });
+        steps.push(Step::Poll);
+    }
+    // every stream is parked now; release items and ends in a random order
+    let mut left: Vec<usize> = conns.iter().map(|c| if let Kind::Stream(k, _) = c.calls[0] { k as usize + 1 } else { 0 }).collect();
+    while left.iter().any(|l| *l > 0) {
+        let c = r.below(n as u64) as usize;
+        if left[c] > 0 {
+            // sometimes a stream runs to its end in one go (it ends while the others stay open)
+            let k = if r.chance(1, 3) { left[c] } else { 1 };
+            for _ in 0..k {
+                steps.push(Step::Tick(c));
+            }
+            left[c] -= k;
+            steps.push(Step::Poll);
+            if r.chance(1, 2) {
+                steps.push(Step::Poll);
+            }
+        }
+    }
+    for _ in 0..4 {
+        steps.push(Step::Poll);
+    }
+    Scenario { sid, conns, steps, fair: false }
+}
+
 /// C08 on connections whose transport fails a write (for good or once, having handed over nothing, a part
 /// or everything): calls keep coming behind the failure; what reaches each client is judged.
 pub fn gen_wfault(r: &mut Rng, sid: String) -> Scenario {
